@@ -121,6 +121,22 @@ def vec_push(m, st, ctx, args, span):
     return UNIT
 
 
+@model("std::vec::Vec::<T, A>::insert", "std::collections::VecDeque::<T, A>::push_front", "std::collections::VecDeque::<T, A>::push_back")
+def vec_insert(m, st, ctx, args, span):
+    # insertion into a symbolic sequence: recorded as an `ext` event whose first argument is the container's content expression
+    r, v = args[0], args[-1]
+    vec = deref(r)
+    if isinstance(vec, VecV) and vec.elems is None:
+        m.event(st, "ext", ctx.name, [Opaque(vec.content)] + list(args[1:]), None, span)
+        n = vec.len
+        store(r, VecV(content=E("inserted", (vec.content, E("val", (repr(v),)))), length=Int(n.w, False, binop("add", n.e, const(1, n.w), n.w)), cap=vec.cap))
+        return UNIT
+    if isinstance(vec, Opaque):
+        m.event(st, "ext", ctx.name, [Opaque(vec.e)] + list(args[1:]), None, span)
+        return UNIT
+    raise Unsupported("insert on %r" % (vec,))
+
+
 @model("std::vec::Vec::<T, A>::reserve", "std::vec::Vec::<T, A>::reserve_exact", "std::vec::Vec::<T, A>::shrink_to_fit",
        "std::vec::Vec::<T, A>::shrink_to")
 def vec_reserve(m, st, ctx, args, span):
@@ -525,6 +541,19 @@ def iter_next(m, it_ref):
             cnt = it.b
             store(it_ref, IterV("enumerate", inner_cell.val, cnt + 1))
             return some(Tup([usize(m, cnt), nxt.fields[0]]))
+    if isinstance(it, IterV) and it.kind == "stepby":
+        # StepBy: the first element, then every step-th one
+        inner_cell = Cell(it.a)
+        ir = Ref(inner_cell, (), True)
+        step, first = it.b, it.c
+        if not first:
+            for _ in range(step - 1):
+                if iter_next(m, ir).variant == 0:
+                    store(it_ref, IterV("stepby", inner_cell.val, step, False))
+                    return none()
+        nxt = iter_next(m, ir)
+        store(it_ref, IterV("stepby", inner_cell.val, step, False))
+        return nxt
     if isinstance(it, Adt) and it.path == "std::ops::Range":
         a, b = it.fields
         if a.is_const() and b.is_const():
@@ -537,7 +566,16 @@ def iter_next(m, it_ref):
     raise Unsupported("next on %r" % (it,))
 
 
-@model("<std::iter::Enumerate<I> as std::iter::Iterator>::next", "<std::slice::Iter<'a, T> as std::iter::Iterator>::next",
+@model("std::iter::Iterator::step_by")
+def m_step_by(m, st, ctx, args, span):
+    it, n = args
+    if not (isinstance(n, Int) and n.is_const() and n.cval() > 0):
+        raise Unsupported("step_by with a non-constant or zero step")
+    return IterV("stepby", it, n.cval(), True)
+
+
+@model("<std::iter::Enumerate<I> as std::iter::Iterator>::next", "<std::iter::StepBy<I> as std::iter::Iterator>::next",
+       "<std::slice::Iter<'a, T> as std::iter::Iterator>::next",
        "<std::slice::IterMut<'a, T> as std::iter::Iterator>::next",
        "std::iter::range::<impl std::iter::Iterator for std::ops::Range<A>>::next",
        "<std::array::IntoIter<T, N> as std::iter::Iterator>::next", "__shim::next",
@@ -850,6 +888,20 @@ def m_nonnull_as_ptr(m, st, ctx, args, span):
     if isinstance(v, Opaque):
         return Int(m.ptr_bits, False, E("nn_ptr", (v.e,), m.ptr_bits))
     raise Unsupported("NonNull::as_ptr(%r)" % (v,))
+
+
+@model("std::result::Result::<T, E>::is_ok", "std::result::Result::<T, E>::is_err", "std::option::Option::<T>::is_some",
+       "std::option::Option::<T>::is_none")
+def m_is_variant(m, st, ctx, args, span):
+    v = deref(args[0]) if isinstance(args[0], Ref) else args[0]
+    want = ctx.name.split("::")[-1]
+    if isinstance(v, Adt) and v.path in ("std::option::Option", "std::result::Result"):
+        good = v.variant == (1 if v.path == "std::option::Option" else 0)     # Some / Ok
+        return int_const(int(good == (want in ("is_ok", "is_some"))), 1)
+    if isinstance(v, Opaque):
+        e = E("is_some" if "Option" in ctx.name else "is_ok", (v.e,), 1)
+        return Int(1, False, e if want in ("is_ok", "is_some") else not_(e))
+    raise Unsupported("%s(%r)" % (want, v))
 
 
 @model("std::option::Option::<T>::expect", "std::option::Option::<T>::unwrap")
